@@ -383,8 +383,8 @@ def emit(an_list, F, repo):
          "namespace PsV.Generated.C18", "open PsV.CApi", ""]
     for a in an_list:
         calls = ", ".join("⟨.%s, %s, .%s⟩" % (c["op"], lean_bool(c["guarded"]), c["disp"]) for c in a.calls)
-        o.append("def w_%s : Wrapper :=\n  { name := %s, ret := .%s, nullChecked := [%s], derefsData := %s,\n    guardFails := %s, handlerFails := %s, finalSucceeds := %s,\n    calls := [%s] }" % (
-            a.name, lean_str(a.name), a.rc, ", ".join(lean_str(x) for x in a.null_checked), lean_bool(a.derefs_data),
+        o.append("def w_%s : Wrapper :=\n  { name := %s, ret := .%s, nullChecked := [%s], mustBeNull := [%s], derefsData := %s,\n    guardFails := %s, handlerFails := %s, finalSucceeds := %s,\n    calls := [%s] }" % (
+            a.name, lean_str(a.name), a.rc, ", ".join(lean_str(x) for x in a.null_checked), ", ".join(lean_str(x) for x in a.must_be_null), lean_bool(a.derefs_data),
             lean_bool(a.guard_fails), lean_bool(a.handler_fails), lean_bool(a.final_succeeds), calls))
     o.append("")
     o.append("def wrappers : List Wrapper :=\n  [" + ",\n   ".join("w_" + a.name for a in an_list) + "]")
